@@ -1,9 +1,12 @@
-\* default configuration (quick tier uses generated variants): 3 logical on 4 physical qudits, every connected graph
+\* default configuration (the check uses generated variants): 2 logical qudits, machines of 2 and 3 qudits, every connected graph,
+\* workflows of every length (the pass counter is hidden by the VIEW and its bound is out of reach)
 SPECIFICATION Spec
 CONSTANTS
-  NL = 3
-  NP = 4
+  NL = 2
+  Sizes = {2, 3}
   GraphMode = "all"
-  MaxSwaps = 3
-INVARIANTS PublishedAreTokens PiTracksTokens MappingsInjective MappingsInRange PlacementConnected TokensConserved
+  MaxSwaps = 2
+  MaxSteps = 1000000
+VIEW NoSteps
+INVARIANTS PublishedAreTokens PiTracksTokens MappingsInjective MappingsInRange PlacementConnected TokensConserved AppliedMeans
 CHECK_DEADLOCK FALSE
